@@ -90,6 +90,13 @@ OWN = {
 }
 
 
+# operator methods of the IR classes run implicitly wherever an IR object is compared, hashed,
+# printed or copied: they belong to every property
+DUNDERS = r'stone\.ir\.\w+\.\w+\.__(eq|ne|hash|lt|le|gt|ge|repr|str|bool|len|iter|contains|copy|deepcopy)__$'
+for _k in OWN:
+    OWN[_k] = list(OWN[_k]) + [DUNDERS]
+
+
 # ---------------------------------------------------------------------------
 # closure: what the anchored functions rest on
 
